@@ -26,7 +26,8 @@ CONSTANTS
   CutStrs,     \* for which A every proper prefix of the file is generated
   CutRecs,     \* ... of databases with at most this many records
   PreKinds,    \* subset of {"none", "base"}: is another database already loaded?
-  Layouts      \* subset of {"gaps", "canon"}: index numbers as generated (8, 11, 14) or already canonical
+  Layouts,     \* subset of {"gaps", "canon"}: index numbers as generated (8, 11, 14) or already canonical
+  MultiPre, MultiLayouts   \* databases of more than one record only for these (pre, layout); so are the prefixes
 
 VARIABLES
   par,         \* [a, pre, layout] chosen initially
@@ -65,6 +66,7 @@ Init ==
 (* Generation *)
 Gen(k, v) ==
   /\ pc = "gen" /\ NumRecs(db) < MaxRecs
+  /\ NumRecs(db) >= 1 => par.pre \in MultiPre /\ par.layout \in MultiLayouts
   /\ db' = [db EXCEPT ![k] = Append(@, Tmpl(k, v, IdxOf(NumRecs(db) + 1), A, B, IdxSeq(db.f)))]
   /\ UNCHANGED <<par, hdr, cut, stream, pc, sec, left, st, fmaj, fmin, temp, glob, err>>
 
@@ -86,7 +88,7 @@ Close(kind, minor) ==
   /\ LET d == IF par.layout = "canon" THEN Remap(db, 1) ELSE db
          h == HdrOf(kind, minor, NumRecs(db))
          file == WriteDbAs(d, h.major, h.minor)
-         cuts == IF kind = "ok" /\ par.a \in CutStrs /\ NumRecs(db) <= CutRecs THEN 0..(Len(file) - 1) ELSE {}
+         cuts == IF kind = "ok" /\ par.a \in CutStrs /\ par.layout \in MultiLayouts /\ NumRecs(db) <= CutRecs THEN 0..(Len(file) - 1) ELSE {}
      IN \E c \in {-1} \cup cuts :
         /\ db' = d /\ hdr' = h /\ cut' = c
         /\ stream' = IF c = -1 THEN file ELSE SubSeq(file, 1, c)
